@@ -78,6 +78,9 @@ let gen_history (idx : int) (prof : eprofile) (oc : out_channel) =
      after all it causes has settled - the schedule in which the peer is faster than the caller.  The composed model
      runs every event to quiescence, so its outputs do not depend on that schedule; race-free code does not either *)
   let sync_calls = rnd 4 = 0 in
+  (* likewise for the gateway: one history in four delivers its broker messages with the gateway session's writes
+     synchronous (BPUBS): the client's answer is handled by the session before the writer continues *)
+  let sync_bpubs = rnd 4 = 0 in
   let call a = let id = !next_call in incr next_call;
     emit_or_skip (Printf.sprintf "%s %d %s" (if sync_calls then "CALLS" else "CALL") id a) in
   let hx s = hex_of_bytes (bs s) in
@@ -108,7 +111,7 @@ let gen_history (idx : int) (prof : eprofile) (oc : out_channel) =
         (* a true burst: the gateway handles all of them before the client's first answer arrives *)
         emit_or_skip ("BBURST " ^ String.concat " | " (List.init n (fun k -> spec (k + 1))))
       else
-        for k = 1 to n do emit_or_skip ("BPUB " ^ spec k) done;
+        for k = 1 to n do emit_or_skip ((if sync_bpubs then "BPUBS " else "BPUB ") ^ spec k) done;
       (* within the fault budget: every other time wait past the deadline by which the monitor wants the
          message delivered and acknowledged (C16), before the program goes on (and may disconnect) *)
       if prof.e_lossy > 0 && nfault <= rcount && coin () then adv (4 * (rcount + 1) * (max gdelay cdelay) + 1100 + rnd 200) in
